@@ -2,6 +2,7 @@
 From Coq Require Import List NArith Bool.
 From HV Require Import TokIR.IR TokIR.Interp TokIR.Checks TokIR.LineInv Gen.GenHtmlTok Inst.InstHtmlTok Inst.InstLine.
 From HV Require Import CharRef.CRModel Gen.GenEntities.
+From HV Require Import TokIR.Chunk TokIR.QueueSim TokIR.BulkSim TokIR.NoPanic Inst.InstBulk Inst.InstTermination Inst.InstNoPanic Inst.InstLineDefault.
 Import ListNotations.
 Local Open Scope N_scope.
 
@@ -90,6 +91,54 @@ Theorem C09_line_invariant_gives_the_law :
 Proof. exact html_line_inv_law. Qed.
 Print Assumptions C09_line_invariant_gives_the_law.
 
+(* ------------------------------------------------------------------------------------------------------------
+   The law in the tokenizer's REAL default configuration: exact_errors = false, the chunked BufferQueue, bulk reads
+   (pop_except_from) and the SIMD scan of the Data state - the code path every ordinary parse takes
+   (Inst/InstLineDefault.v).  It is transported from the reference semantics through the default-mode simulation
+   (TokIR/BulkSim.v, fuel bound html_fuel of TokIR/BulkTerm.v: no regularity hypothesis is left).  Default mode
+   merges a run of characters into one token and drops some error tokens; [obs] is the observation that forgets
+   exactly that (a maximal character run is represented by its last piece, errors are erased), so the law is stated
+   for every entry of the observation, and literally for every token that is neither characters nor an error. *)
+Theorem C09_default_mode_line_numbers_match_source :
+  forall ent c1 sk,
+  (forall buf v, ent buf = Some v -> nobreaks buf = true) ->
+  forall input fuel s0 last,
+  (html_fuel (length input) <= fuel)%nat -> (4 <= fuel)%nat ->
+  forall t ln k,
+  In (t, ln, k) (obs (mout (fst (drive_chunked html_flavour false html_table html_simd ent c1 sk fuel [] [input]
+                                               (mkmach (init_cfg s0 last false) [] [] 0) [])))) ->
+  ln = 1 + breaks (firstn (N.to_nat k) input).
+Proof. exact html_default_mode_line_law. Qed.
+Print Assumptions C09_default_mode_line_numbers_match_source.
+
+Theorem C09_default_mode_line_numbers_of_tags_comments_doctypes_eof :
+  forall ent c1 sk,
+  (forall buf v, ent buf = Some v -> nobreaks buf = true) ->
+  forall input fuel s0 last t ln k,
+  (html_fuel (length input) <= fuel)%nat -> (4 <= fuel)%nat ->
+  plain_tok t = true ->                                            (* any token but TChars / TError *)
+  In (t, ln, k) (mout (fst (drive_chunked html_flavour false html_table html_simd ent c1 sk fuel [] [input]
+                                          (mkmach (init_cfg s0 last false) [] [] 0) []))) ->
+  ln = 1 + breaks (firstn (N.to_nat k) input).
+Proof. exact html_default_mode_line_law_tokens. Qed.
+Print Assumptions C09_default_mode_line_numbers_of_tags_comments_doctypes_eof.
+
+(* any chunking (non-empty chunks) of the input, for a sink that never pauses the tokenizer: positions count in the
+   concatenated input *)
+Theorem C09_default_mode_line_numbers_match_source_any_chunking :
+  forall ent c1 sk,
+  (forall buf v, ent buf = Some v -> nobreaks buf = true) ->
+  forall chunks fuel s0 last,
+  html_sink_ok sk = true -> html_sink_never_pauses sk = true -> html_kind_ok s0 = true ->
+  all_nonempty chunks -> chunks <> [] ->
+  (html_fuel (length (concat chunks)) <= fuel)%nat -> (4 <= fuel)%nat ->
+  forall t ln k,
+  In (t, ln, k) (obs (mout (fst (drive_chunked html_flavour false html_table html_simd ent c1 sk fuel [] chunks
+                                               (mkmach (init_cfg s0 last false) [] [] 0) [])))) ->
+  ln = 1 + breaks (firstn (N.to_nat k) (concat chunks)).
+Proof. exact html_default_mode_line_law_chunked. Qed.
+Print Assumptions C09_default_mode_line_numbers_match_source_any_chunking.
+
 (* the decidable conditions under which the generic theorem holds, on the regenerated table *)
 Theorem C09_step_arms_count_every_line_break : forall s, start_ok html_table html_clean s = true.
 Proof. exact html_start_ok_all. Qed.
@@ -103,9 +152,17 @@ Print Assumptions C09_eof_arms_do_not_read.
    numeric / unfinished character references, comment, doctype, a reported bad character: 16 tokens, the EOF token
    at line 10 = 1 + 9 line breaks with all 60 characters consumed *)
 Example C09_line_law_example :
-  line_law_b ex_input (mout (fst ex_run)) = true /\
-  ex_positions = [(4, 14); (4, 19); (5, 20); (5, 25); (5, 26); (5, 27); (5, 28); (6, 29); (7, 41); (8, 42);
+  line_law_b InstLine.ex_input (mout (fst InstLine.ex_run)) = true /\
+  InstLine.ex_positions = [(4, 14); (4, 19); (5, 20); (5, 25); (5, 26); (5, 27); (5, 28); (6, 29); (7, 41); (8, 42);
                   (9, 57); (10, 58); (10, 59); (10, 59); (10, 60); (10, 60)] /\
-  lenN ex_input = 60 /\ breaks ex_input = 9.
+  lenN InstLine.ex_input = 60 /\ breaks InstLine.ex_input = 9.
 Proof. exact ex_run_obeys_law. Qed.
 Print Assumptions C09_line_law_example.
+
+(* non-vacuity of the default-mode law (a test, by computation): the same document fed as two chunks cut inside
+   `&amp;`, default mode, fuel exactly html_fuel 60: 7 observed entries, all obeying the law, three clean returns *)
+Example C09_default_mode_line_law_example :
+  line_law_b InstLine.ex_input (obs (mout (fst dex_run))) = true /\
+  length (obs (mout (fst dex_run))) = 7%nat /\ snd dex_run = [SSuspend; SSuspend; SSuspend].
+Proof. exact dex_run_obeys_law. Qed.
+Print Assumptions C09_default_mode_line_law_example.
